@@ -139,7 +139,14 @@ def sig_style():
 
 
 def hashtype_legacy():
-    return st.sampled_from([1, 1, 1, 2, 3, 0x81, 0x82, 0x83, 0, 4, 0x50, 0xFF, 0x21, 0x41, 0xE3])
+    # three classes, about evenly: the six defined types; bytes that are undefined only through bit 5 or 6 (base 1..3, with or without
+    # ANYONECANPAY: what STRICTENC's IsDefinedHashtypeSignature refuses and the digest algorithms read as their base type); other undefined bytes
+    return st.one_of(
+        st.sampled_from([1, 1, 1, 2, 3, 0x81, 0x82, 0x83]),
+        st.sampled_from([1, 1, 2, 3, 0x81, 0x83]),
+        st.sampled_from([0x21, 0x22, 0x23, 0x41, 0x42, 0x43, 0x61, 0x62, 0x63, 0xA1, 0xA2, 0xA3, 0xC1, 0xC2, 0xC3, 0xE1, 0xE2, 0xE3]),
+        st.sampled_from([0, 4, 5, 0x50, 0x80, 0x84, 0xFF, 0x20, 0x40, 0x60]),
+    )
 
 
 def hashtype_tap():
